@@ -29,7 +29,10 @@ func runC17(r *Run) {
 		"own wallet; non-trivial = distinct honest pair on which all compared fields agree. whole batches: 1-3 bids of one taker each " +
 		"matched with 1-3 asks of one or two maker nodes (repeated counterparty nodes, provider-only sidecar bids), real " +
 		"PrepChannelFunding / BatchChannelSetup over the whole OrderMatchPrepare; oracle: exactly one shim + acceptor expectation " +
-		"per matched pair, equal to the one request the maker opens"
+		"per matched pair, equal to the one request the maker opens. re-proposals: 2-3 proposals of the same pairs with a new batch tx " +
+		"and later height hint, separated by the real RemovePendingBatchArtifacts with all / some / no shim cancels succeeding, " +
+		"against an lnd mock that refuses duplicate pending ids and keeps the first shim; oracle: whenever the bidder accepts a " +
+		"proposal, the shims its lnd holds equal what the makers open for that proposal"
 
 	// compiled values of the constants the model hard-codes / regenerates
 	r.Emit("C17 consts", fmt.Sprintf("cse=%d cst=%d ffa=%d msat=%d pd=%d se=%d st=%d unit=%d rpcunk=%d rpcsel=%d rpcst=%d kfms=%d",
@@ -62,6 +65,11 @@ func runC17(r *Run) {
 			if json.Unmarshal(raw, &c) == nil {
 				fund.execBatch(&c)
 			}
+		case "repro":
+			var c c17ReproCase
+			if json.Unmarshal(raw, &c) == nil {
+				fund.execRepro(&c)
+			}
 		case "pair":
 			var c c17PairCase
 			if json.Unmarshal(raw, &c) == nil {
@@ -86,6 +94,12 @@ func runC17(r *Run) {
 		}
 		if i%5 == 0 {
 			fund.execBatch(&c17BatchCase{Kind: "batch", Seed: r.Rng.Int63()})
+		}
+		if i%5 == 2 {
+			fund.execRepro(&c17ReproCase{Kind: "repro", Seed: r.Rng.Int63()})
+		}
+		if len(r.Violations) >= 20 {
+			break
 		}
 	}
 }
